@@ -118,6 +118,43 @@ func main() {
 		if bad {
 			os.Exit(1)
 		}
+	case "loops":
+		w, err := loadWorld(*repo)
+		if err != nil {
+			fmt.Fprintln(os.Stderr, "ENGINE-ERROR:", err)
+			os.Exit(2)
+		}
+		for _, k := range pos {
+			f := w.Funcs[k]
+			if f == nil {
+				fmt.Println("no such function", k)
+				continue
+			}
+			x := &Exec{w: w, cx: newCx(w, false), fn: f, key: k, con: w.Contracts[k]}
+			x.findLoops()
+			fmt.Println(k)
+			for _, li := range x.loops {
+				fmt.Printf("  loop %d: header block %d (%s) at %s, %d blocks\n", li.ord, li.header.Index, li.header.Comment, w.Fset.Position(x.blockPos(li)), len(li.blocks))
+			}
+		}
+	case "bounded":
+		w, err := loadWorld(*repo)
+		if err != nil {
+			fmt.Fprintln(os.Stderr, "ENGINE-ERROR:", err)
+			os.Exit(2)
+		}
+		for _, k := range pos {
+			con := w.Contracts[k]
+			if con == nil {
+				fmt.Println("no contract for", k)
+				continue
+			}
+			r := w.boundedRun(con.Pkg, []string{k}, k)
+			fmt.Printf("== bounded %s: %d runs, %d failures %s\n", k, r.Runs, len(r.Fails), r.Err)
+			for _, f := range r.Fails {
+				fmt.Printf("   %s %s: %s | %s | %s\n", f.Kind, f.Clause, f.State, f.Args, f.Detail)
+			}
+		}
 	case "lemma":
 		w, err := loadWorld(*repo)
 		if err != nil {
